@@ -21,7 +21,9 @@ import (
 	"io/ioutil"
 	"log"
 	"math/rand"
+	"net"
 	"os"
+	"os/exec"
 	"path/filepath"
 	"sort"
 	"strconv"
@@ -68,24 +70,26 @@ type ckStore struct {
 }
 
 type ckDrv struct {
-	eng      string
-	base     string
-	seed     int64
-	keep     int
-	tw       *trace.Writer
-	rng      *rand.Rand
-	stores   map[int]*ckStore
-	terms    []uint64 // terms[k-1] = raft term of log entry k (one log for all stores)
-	curTerm  uint64
-	mreal    []int // model index j -> real index (a model entry is a burst of real entries)
-	nseg     int
-	rewind   bool // allow a fetch that can reuse local files after the source went back
-	inflight bool // apply entries between the release of the apply loop and the end of a backup
-	viasm    bool // stores are kv state machines; snapshots go through StateMachine.GetSnapshot
-	big      bool // current segment: entries are bulk writes of fixed-length values (large sst files)
-	cnt      map[string]int
-	sample   []string
-	scratch  int
+	eng           string
+	base          string
+	seed          int64
+	keep          int
+	tw            *trace.Writer
+	rng           *rand.Rand
+	stores        map[int]*ckStore
+	terms         []uint64 // terms[k-1] = raft term of log entry k (one log for all stores)
+	curTerm       uint64
+	mreal         []int // model index j -> real index (a model entry is a burst of real entries)
+	nseg          int
+	rewind        bool // allow a fetch that can reuse local files after the source went back
+	inflight      bool // apply entries between the release of the apply loop and the end of a backup
+	lastBackupSec map[int]int64
+	rsyncAddr     string // -rsync: address of the rsync daemon (module `mod` = the driver's scratch directory)
+	viasm         bool   // stores are kv state machines; snapshots go through StateMachine.GetSnapshot
+	big           bool   // current segment: entries are bulk writes of fixed-length values (large sst files)
+	cnt           map[string]int
+	sample        []string
+	scratch       int
 }
 
 func (d *ckDrv) count(k string) { d.cnt[k]++ }
@@ -459,6 +463,14 @@ func (d *ckDrv) bbegin(s *ckStore) bool {
 		return false
 	}
 	name := ckName{d.terms[s.applied-1], uint64(s.applied)}
+	if d.rsyncAddr != "" {
+		// rsync's quick check takes files of equal size and equal whole-second modification time for
+		// unchanged: checkpoints of one store are taken in different wall-clock seconds, as in any
+		// real deployment (the driver would otherwise take several per second)
+		for time.Now().Unix() <= d.lastBackupSec[s.id] {
+			time.Sleep(50 * time.Millisecond)
+		}
+	}
 	if d.viasm {
 		// the state machine's own snapshot entry point (what the node's apply loop calls): it
 		// returns when the apply loop may go on.  Nothing is read from the store here, so that
@@ -509,6 +521,7 @@ func (d *ckDrv) bdone(s *ckStore) {
 	}
 	_, err := s.bi.GetResult()
 	s.bi = nil
+	d.lastBackupSec[s.id] = time.Now().Unix()
 	// the backup goroutine purges old checkpoints right after it has closed `done`; let it
 	// get there, then pass behind it (IsLocalBackupOK takes the directory lock for reading)
 	time.Sleep(3 * time.Millisecond)
@@ -707,7 +720,15 @@ func (d *ckDrv) fetch(from, to *ckStore, n ckName) bool {
 	if d.rng.Intn(3) == 0 {
 		d.interruptedTransfer(from, to, n)
 	}
-	reused, err := node.VerifCkptFetchLocal(to.kv, from.dir, n.t, n.i, make(chan struct{}))
+	var reused string
+	var err error
+	if d.rsyncAddr != "" {
+		// through the source's rsync daemon, as between hosts
+		reused, err = node.VerifCkptFetchFrom(to.kv, d.rsyncAddr, "mod/"+filepath.Base(from.dir), n.t, n.i, make(chan struct{}))
+		d.count("fetches_through_rsync")
+	} else {
+		reused, err = node.VerifCkptFetchLocal(to.kv, from.dir, n.t, n.i, make(chan struct{}))
+	}
 	if !d.has(from, n) {
 		// purged under the copy: drop what was copied, nothing to judge
 		os.RemoveAll(filepath.Join(to.kv.GetBackupDir(), rockredis.GetCheckpointDir(n.t, n.i)))
@@ -968,6 +989,7 @@ func ckptsim(args []string) error {
 	seed := fs.Int64("seed", 1, "")
 	keep := fs.Int("keep", 2, "KeepBackup of the stores (checkpoints kept by the purge)")
 	inflight := fs.Bool("inflight", true, "keep applying entries as soon as WaitReady has returned, while the checkpoint is still being written (false: only after the backup is done)")
+	useRsync := fs.Bool("rsync", false, "fetch checkpoints through an rsync daemon started by the driver (the path between hosts) instead of the local copy")
 	nbig := fs.Int("bigsst", 0, "number of scripted large-sst histories (bulk writes of fixed-length values, restore - rewrite - restore)")
 	fs.BoolVar(&ckNoWAL, "nowal", false, "open the engines with disable_wal (informational experiment)")
 	viasm := fs.Bool("viasm", false, "stores are kv state machines (node.NewKVStoreSM) and snapshots are taken through StateMachine.GetSnapshot, the entry point of the node's apply loop")
@@ -998,7 +1020,37 @@ func ckptsim(args []string) error {
 		}
 	}
 	d := &ckDrv{eng: *et, base: base, seed: *seed, keep: *keep, rng: rand.New(rand.NewSource(*seed)),
-		stores: map[int]*ckStore{}, cnt: map[string]int{}, rewind: *rewind, inflight: *inflight, viasm: *viasm}
+		stores: map[int]*ckStore{}, cnt: map[string]int{}, lastBackupSec: map[int]int64{}, rewind: *rewind, inflight: *inflight, viasm: *viasm}
+	if *useRsync {
+		ports, err := ckFreePorts(1)
+		if err != nil {
+			return err
+		}
+		conf := filepath.Join(base, "rsyncd.conf")
+		ioutil.WriteFile(conf, []byte("use chroot = no\nmax connections = 64\nuid = "+strconv.Itoa(os.Getuid())+"\ngid = "+strconv.Itoa(os.Getgid())+"\n[mod]\npath = "+base+"\nread only = yes\n"), 0644)
+		cmd := exec.Command("rsync", "--daemon", "--no-detach", "--address=127.0.0.1", "--port="+strconv.Itoa(ports[0]),
+			"--config="+conf, "--log-file="+filepath.Join(base, "rsyncd.log"))
+		if err := cmd.Start(); err != nil {
+			return fmt.Errorf("rsync daemon: %v", err)
+		}
+		defer func() {
+			cmd.Process.Kill()
+			cmd.Wait()
+		}()
+		d.rsyncAddr = "127.0.0.1:" + strconv.Itoa(ports[0])
+		up := false
+		for k := 0; k < 100 && !up; k++ {
+			if c, err := net.DialTimeout("tcp", d.rsyncAddr, 200*time.Millisecond); err == nil {
+				c.Close()
+				up = true
+			} else {
+				time.Sleep(50 * time.Millisecond)
+			}
+		}
+		if !up {
+			return fmt.Errorf("rsync daemon did not come up on %s", d.rsyncAddr)
+		}
+	}
 	seg := 0
 	var runErr error
 	segment := func(f func()) {
